@@ -248,10 +248,17 @@ class C20(Check):
     _named = {}
 
     def partitions(self, tier):
-        return [(fam, p) for fam in FAMILIES for p in range(NPARTS)]
+        return [(fam, p) for fam in FAMILIES for p in range(NPARTS)] + [("two-directories", 0)]
 
     def run_partition(self, part, tier, st):
         fam, p = part
+        if fam == "two-directories":
+            bad, n = T.run_two_directories()
+            st.ev(n)
+            st.nontriv(("two-directories", n))
+            for sig, msg in bad:
+                st.violation(sig, msg, {"two_directories": True})
+            return
         for w in FAMILIES[fam](tier, p):
             self.one(T.norm_world(w), fam, st)
 
@@ -297,6 +304,8 @@ class C20(Check):
             st.violation(sig, msg[:700], {"world": small, "family": fam})
 
     def replay(self, case):
+        if case.get("two_directories"):
+            return repr(T.run_two_directories())
         w = T.norm_world(case["world"])
         v, exp, real = judge20(w)
         out = [T.describe(w, exp), "real:      %r" % (real,)]
